@@ -111,12 +111,12 @@ func c05Allowed(v avfs.VFS, pre *fsx.Snapshot, o fsx.Op, cwd string) func(path s
 		add(o.P)
 	}
 	sep := string(v.PathSeparator())
-	// hard-link classes of named regular files and of the regular files below named directories
+	// hard-link classes of named regular files / symbolic links and of those below named directories
 	classes := map[string]bool{}
 	exists := map[string]bool{}
 	for _, r := range pre.Recs {
 		exists[r.Path] = true
-		if r.Type != "f" {
+		if r.Type != "f" && r.Type != "l" {
 			continue
 		}
 		for _, n := range named {
@@ -137,7 +137,7 @@ func c05Allowed(v avfs.VFS, pre *fsx.Snapshot, o fsx.Op, cwd string) func(path s
 	}
 	classOf := map[string]string{}
 	for _, r := range pre.Recs {
-		if r.Type == "f" {
+		if r.Type == "f" || r.Type == "l" {
 			classOf[r.Path] = r.Class
 		}
 	}
